@@ -52,18 +52,26 @@ self._start_time = 0.0
 self._cue_time = 0.0
 self._keep_going = True
 """)
-CLOCK_START = norm("""
+# Clock.start / Clock.run: pinned = the clock thread re-arms _keep_going itself (D43);
+# repaired = start() re-arms before the thread is started.
+CLOCK_START_PINNED = norm("""
 self.reset()
 threading.Thread(target=self.run, args=(), daemon=True).start()
 """)
-CLOCK_RUN = norm("""
+CLOCK_START_REPAIRED = norm("""
+self.reset()
 self._keep_going = True
+threading.Thread(target=self.run, args=(), daemon=True).start()
+""")
+CLOCK_RUN_TAIL = """
 sleep_time = float(settings.get_value('sleep_time'))
 while self._keep_going:
     if sleep_time > 0.0:
         time.sleep(sleep_time)
     self.fire()
-""")
+"""
+CLOCK_RUN_PINNED = norm("self._keep_going = True" + CLOCK_RUN_TAIL)
+CLOCK_RUN_REPAIRED = norm(CLOCK_RUN_TAIL)
 CLOCK_STOP = norm("self._keep_going = False")
 CLOCK_RESET = norm("""
 self._cue_time = 0.0
@@ -253,8 +261,8 @@ def gen_clock(repo):
     now_fn = [n for n in ctree.body if isinstance(n, ast.FunctionDef) and n.name == 'now']
     shape['clock_now_std'] = bool(now_fn) and fn_src(now_fn[0]) == MODULE_NOW
     shape['clock_init_std'] = c('__init__') == CLOCK_INIT
-    shape['clock_start_std'] = c('start') == CLOCK_START
-    shape['clock_run_std'] = c('run') == CLOCK_RUN
+    shape['clock_rearms_in_run'] = c('start') == CLOCK_START_PINNED and c('run') == CLOCK_RUN_PINNED        # pinned (D43)
+    shape['clock_rearms_in_start'] = c('start') == CLOCK_START_REPAIRED and c('run') == CLOCK_RUN_REPAIRED  # repaired
     shape['clock_stop_std'] = c('stop') == CLOCK_STOP
     shape['clock_reset_std'] = c('reset') == CLOCK_RESET
     shape['clock_et_std'] = c('et') == CLOCK_ET
